@@ -143,9 +143,12 @@ func (p *Program) deriveWire(st *types.Struct, in, out string) (clauses []string
 			et := pt.Elem()
 			switch {
 			case isRawMessage(et):
+				// stated only for valid JSON behind the pointer: a nil or otherwise invalid RawMessage
+				// is encoded as null or rejected, which the contract leaves open (found by the bounded validation)
 				clauses = append(clauses,
-					fmt.Sprintf("(%s == nil) == (%s == nil || bytes(*%s) == \"null\")", fo, fi, fi),
-					fmt.Sprintf("%s != nil ==> fresh(%s) && bytes(*%s) == bytes(*%s)", fo, fo, fo, fi))
+					fmt.Sprintf("(%s != nil ==> jsonValid(bytes(*%s))) ==> ((%s == nil) == (%s == nil || bytes(*%s) == \"null\"))", fi, fi, fo, fi, fi),
+					fmt.Sprintf("%s != nil ==> fresh(%s)", fo, fo),
+					fmt.Sprintf("%s != nil && %s != nil && jsonValid(bytes(*%s)) ==> bytes(*%s) == bytes(*%s)", fo, fi, fi, fo, fi))
 				okConds = append(okConds, fmt.Sprintf("(%s != nil ==> jsonValid(bytes(*%s)))", fi, fi))
 			case implementsText(et):
 				tn := shortTypeName(et)
